@@ -180,4 +180,24 @@ CHECKS = {
         "distinct_measure": "FNV-64 of (drawn configuration, final tips / BFT heights / finalized heights of all nodes)",
         "assumptions": ["durability model = pebble's strict MemFS: data is durable once the file was synced and its directory entry synced; a torn write leaves a prefix", "the twin (same code, no faults) defines the before/after images: a defect that corrupts both the same way without a crash is other checks' business (C02, C04, C05)", "map iteration order inside diffdb's cache is canonicalised in the overlay so that two nodes produce byte-identical diffs"],
     },
+    "C19": {
+        "profile": "chainsim", "pkg": "chain", "test": "TestC19", "level": "exploration", "env": {"VERIF_PROP": "C19"},
+        "quick": {"workers": 8, "checks": 60}, "thorough": {"workers": 14, "checks": 3000},
+        "timeout": {"quick": "25m", "thorough": "6h"}, "shrinktime": "90s",
+        "rule": "chainsim: per run 3-6 whole nodes and 4-9 validators (in half of the runs some validators, < 1/3 of the weight, belong to a two-headed Byzantine adversary; in a third of the runs 1-4 phantom peers advertise fabricated tips redrawn every 3 s around the honest tips), validator changes, small block caches, 15-90 blocks of faults: gossip latency/loss/duplication, partitions, crash+restart with outages of up to 60 slots (forcing block synchronization), sync RPC timeouts/errors/truncation/bit flips; then faults stop (heal, bans lifted, reliable RPCs, adversary and phantoms gone) for 4 rounds of block slots. Oracles: (1) every un-faulted handler response of an honest node: getLastBlock = its tip, getHighestCommonBlock = highest requested id on its own chain (or empty), getBlocksFromId = the consecutive blocks after the id on its chain, ascending, at most 103; (2) the peer a block sync continues with is allowed by the rule (largest maxHeightPrevoted, then height, then most common id, ties free) evaluated on the answers it actually received; (3) a fast chain switch ends on the triggering block or on the tip it started from, a rolled-back switch bans the serving peer; (4) after the quiet phase all honest nodes agree on the block below the lowest tip and tips differ by at most 2; (5) no node step spins (download loop) or panics",
+        "real": ["pkg/consensus/sync (syncer, block sync, fast sync, downloader, requests, peer selection, RPC handlers)", "pkg/consensus (executer process/fork choice/sync trigger, verify)", "pkg/consensus/liskbft, forkchoice, contradiction, validator, certificate", "pkg/blockchain", "pkg/generator", "pkg/txpool", "pkg/framework ABI handler + pkg/statemachine", "pkg/db, diffdb, batchdb, trie/smt, pkg/codec, pkg/crypto", "pebble on the simulated disk"],
+        "stub": ["pkg/p2p (stub: simulated gossip flooding with validators, synchronous sync RPC with drawn faults, bans/penalties as link cuts)", "libp2p/gossipsub", "pkg/engine wiring (harness wires the same objects; Start loops replaced by simulator events)", "application module: simmod", "ABI loopback", "clock, randomness (rand.Intn -> 0), request deadlines, download rate limiter"],
+        "distinct_measure": "FNV-64 of (drawn configuration, final tips / BFT heights / finalized heights of all nodes)",
+        "assumptions": ["sync RPCs of one processing step see a frozen network", "the goroutines of the sync code (per-peer requests, downloader) run in place, in program order: their interleavings are not explored here", "the response cap 103 is the protocol's (one round); the quiet-phase budget of 4 rounds is this check's choice", "map iteration over the id frequencies in peer selection is canonicalised (ties)"],
+    },
+    "C03": {
+        "profile": "chainsim", "pkg": "chain", "test": "TestC03", "level": "exploration", "env": {"VERIF_PROP": "C03"},
+        "quick": {"workers": 8, "checks": 100}, "thorough": {"workers": 14, "checks": 5000},
+        "timeout": {"quick": "25m", "thorough": "6h"}, "shrinktime": "90s",
+        "rule": "chainsim: per run 2-4 whole nodes, 4-8 validators, validator changes, small caches, 10-70 blocks under gossip latency/loss/duplication, partitions, crash+restart, clock skew and sync RPC faults. Fault under test: a tampering peer. For one in six deliveries of a block signed by an honest validator to a node whose tip is its parent (a valid successor of that node's reachable state) the node is first offered 1-6 drawn single-rule mutants of it through the gossip validator, event handler and consensus loop: version, height+-1, previousBlockID, slot not after the tip's, future slot, generator that does not own the slot (signing with its own key), signature by another key, flipped signature bit, signature for another chain ID, transaction/asset/event/state root, validatorsHash, maxHeightPrevoted+-1, maxHeightGenerated contradicting the generator's last header on that chain (per the reference predicate), aggregate commit (height, forged bits+signature, bits only; for certificate-carrying blocks: signature bit, height, bits, dropped), payload changed under the same root, a statically invalid transaction under a matching root, assets changed under the same root. Every header mutant is re-signed with the right key so that only the rule under test can reject it. Oracles after each mutant: not appended; tip, complete blockchain DB dump and application state DB dump unchanged; no new-block/delete/finalize/validator-change event published (mutants that made the node query its peers give no state verdict); a panic or hang while handling a mutant is reported too",
+        "real": ["pkg/consensus (executer process/processValidated/verifyBlock/verifyAggregateCommit, block gossip validator, abi caller)", "pkg/consensus/liskbft, forkchoice, contradiction, validator, sync, certificate", "pkg/blockchain (block/header/transaction validation, signatures, roots)", "pkg/generator (source of the valid successors)", "pkg/framework ABI handler + pkg/statemachine", "pkg/db, diffdb, trie/rmt, trie/smt, pkg/codec, pkg/crypto", "pebble on the simulated disk"],
+        "stub": ["pkg/p2p (stub)", "pkg/engine wiring", "application module: simmod", "ABI loopback", "clock, randomness, request deadlines"],
+        "distinct_measure": "FNV-64 of (drawn configuration, final tips / BFT heights / finalized heights of all nodes)",
+        "assumptions": ["a block signed by an honest validator's key and linking to a node's tip is a valid successor for that node (same chain, same state)", "mutants altering several rules at once are not generated; size-limit and fully executable statically-invalid payloads need the transaction workload (see DESIGN)"],
+    },
 }
